@@ -236,7 +236,11 @@ def main():
     we = src("src/wrath_header/encrypt.rs")
     wd = src("src/wrath_header/decrypt.rs")
     def wrath_threshold():
-        tok = rx(r'if\s+size\s*>\s*([A-Za-z0-9_]+)\s*\{', we, "`if size > X {` in wrath_header/encrypt.rs", str)
+        body = fn_body(we, "encrypt_server_header", "wrath_header/encrypt.rs")
+        hits = re.findall(r'\bsize\s*>\s*([A-Za-z0-9_]+)', body)
+        if len(set(hits)) != 1:
+            die("exactly one comparison `size > X` expected in encrypt_server_header, found %r" % (hits,))
+        tok = hits[0]
         if re.fullmatch(r'0x[0-9A-Fa-f_]+|\d[\d_]*', tok):
             return parse_int(tok)
         # a named constant of the same file
@@ -264,7 +268,18 @@ def main():
     put("nat", "pinHashSize", lambda: c.scalar(pin, "PIN_HASH_SIZE", "pin.rs"), "pin.rs PIN_HASH_SIZE")
     put("nat", "minPinLength", lambda: c.scalar(pin, "MIN_PIN_LENGTH", "pin.rs"), "pin.rs MIN_PIN_LENGTH")
     put("nat", "maxPinLength", lambda: c.scalar(pin, "MAX_PIN_LENGTH", "pin.rs"), "pin.rs MAX_PIN_LENGTH")
-    put("nat", "pinAsciiOffset", lambda: rx(r'\*b\s*\+=\s*(0x[0-9A-Fa-f]+|\d+)\s*;', pin, "`*b += LIT` (ASCII offset) in pin.rs"), "pin.rs: ASCII offset added to remapped digits")
+    def byte_lit(tok, text, what):
+        """a u8 written as a number, as b'c', or as the name of a constant of the same file defined in one of those ways"""
+        tok = tok.strip()
+        m = re.fullmatch(r"b'(\\?.)'", tok)
+        if m:
+            ch = m.group(1)
+            return ord(ch[-1]) if not ch.startswith("\\") else {"n": 10, "t": 9, "0": 0, "\\": 92, "'": 39}[ch[1]]
+        if re.fullmatch(r'0x[0-9A-Fa-f_]+|\d[\d_]*(?:u8)?', tok):
+            return parse_int(tok)
+        return byte_lit(rx(r'const\s+' + re.escape(tok) + r"\s*:\s*u8\s*=\s*([^;]+);", text, "constant %s in %s" % (tok, what), str), text, what)
+    put("nat", "pinAsciiOffset", lambda: byte_lit(rx(r"\*b\s*\+=\s*([A-Za-z0-9_']+)\s*;", pin, "`*b += X` (ASCII offset) in pin.rs", str), pin, "pin.rs"),
+        "pin.rs: ASCII offset added to remapped digits (number, byte literal or named constant)")
     put("bytes", "pinInitialGrid", lambda: rx(r'let\s+mut\s+grid\s*=\s*\[([^\]]*)\]', pin, "initial grid in pin.rs", parse_array), "pin.rs remap_pin_grid initial grid")
 
     mc = src("src/matrix_card.rs")
